@@ -7,7 +7,7 @@ from . import small as SM
 
 CONFIG = {
     'C01': dict(streams=[('td_class', 480), ('td_wf', 880), ('td_coarse', 320), ('fail_wf', 200), ('panic', 240), ('multi', 40)], keep='om'),
-    'C02': dict(streams=[('td_exact', 880), ('td_wf', 480), ('td_mid', 160)], keep='ov'),
+    'C02': dict(streams=[('td_exact', 880), ('td_wf', 480), ('td_mid', 160), ('panic', 240)], keep='ov'),
     'C03': dict(streams=[('bu_class', 320), ('bu_wf', 720), ('mixed_wf', 320), ('newreq', 160), ('cutoff_newreq', 160), ('reported_products', 160), ('fail_bu', 200), ('mid_session', 160)], keep='ovm'),
     'C04': dict(streams=[('bu_class', 320), ('bu_wf', 960), ('mixed_wf', 160), ('newreq', 160), ('cutoff_newreq', 240), ('reported_products', 120), ('abort_bu', 240)], keep='ov'),
     'C05': dict(streams=[('inj_hidden', 1200), ('siblings', 240), ('td_wf', 160), ('same_session', 80)], keep='om', extra='wabort'),
@@ -15,9 +15,9 @@ CONFIG = {
     'C07': dict(streams=[('inj_cycle', 880), ('reorder_cycle', 240), ('cycle_query', 240), ('newreq', 160), ('mid_session', 240)], keep='ov'),
     'C08': dict(streams=[('td_wf', 560), ('bu_wf', 320), ('multi', 80), ('panic', 240), ('abort_bu', 120), ('newreq', 160), ('same_abort', 80), ('fail_wf', 160)], keep='od'),
     'C09': dict(streams=[('td_coarse', 880), ('bu_wf', 320), ('multi', 80)], keep='dv', extra='stampsrc'),
-    'C16': dict(streams=[('td_wf', 240), ('bu_wf', 240), ('mixed_wf', 120), ('newreq', 160)], keep='oevdm', two_process=True),
+    'C16': dict(streams=[('td_wf', 240), ('bu_wf', 240), ('mixed_wf', 120), ('newreq', 160)], keep='oevdm', two_process=True, extra='fsclock'),
     'C17': dict(streams=[('td_wf', 480), ('bu_wf', 480), ('fail_wf', 240), ('panic', 160), ('failstamp', 160)], keep='v', extra='tracker'),
-    'C18': dict(streams=[('fail_wf', 800), ('fail_bu', 500), ('fail_mixed', 300)], keep='eov'),
+    'C18': dict(streams=[('fail_wf', 800), ('fail_bu', 500), ('fail_mixed', 300), ('fail_panic', 400)], keep='eov'),
     'C19': dict(streams=[('panic', 800), ('abort_bu', 160), ('inj_hidden', 200), ('inj_overlap', 200), ('inj_cycle', 200), ('same_abort', 120)], keep='od'),
     'C20': dict(streams=[('td_class', 320), ('td_wf', 480), ('bu_wf', 240), ('roles', 640), ('same_abort', 120)], keep='o'),
 }
@@ -73,7 +73,7 @@ def make_case(rng, stream, big=False):
         steps = [['E', '0', '1'], ['S', '1', 'q', '0'], ['E', '0', '2'], ['S', '1', 'q', '0'], ['S', '1', 'q', '0']]
         return p, steps, norm_meta({}, 'td')
     exact = stream == 'td_exact'
-    fail = stream in ('fail_wf', 'failstamp', 'fail_bu', 'fail_mixed')
+    fail = stream in ('fail_wf', 'failstamp', 'fail_bu', 'fail_mixed', 'fail_panic')
     coarse = stream == 'td_coarse'
     p = P.gen_wf_program(rng, nt, exact_only=exact, allow_fail=fail, coarse_writers=coarse, norepeat=(stream in ('td_class', 'bu_class')))
     mode = 'td'
@@ -90,6 +90,8 @@ def make_case(rng, stream, big=False):
         p = P.inject_back_require(rng, p); mode = rng.choice(['td', 'td', 'mixed'])
     elif stream == 'panic':
         p = P.inject_panic(rng, p); mode = rng.choice(['td', 'td', 'td', 'mixed'])
+    elif stream == 'fail_panic':      # failing checkers AND builds that abort (a task panics): the errors raised before the abort are still reported
+        p = P.inject_panic(rng, p); mode = rng.choice(['bu', 'bu', 'mixed', 'td'])
     if stream == 'failstamp':
         p.kind = 'failstamp'          # stamping errors are returned to the task: outside the C01 class
         p.tasks = {t: swap_checker(c, 4, 5) for t, c in p.tasks.items()}
@@ -288,6 +290,30 @@ def run(prop, tier, seed, replay=None):
                 what = {'0': 'read', '1': 'write', '2': 'create_writer + written_to'}[kv['mode']]
                 findings.append(('stamp-source', 'stamp-source probe (%s context, %s%s): the task used open #%s of the resource, the recorded stamp is %s (expected %s) and the resource was opened %s time(s) (expected 1): the stamp was not taken from the very reader/writer handed to the task' % (kv['ctx'], what, ', nested' if kv['nested'] == '1' else '', seen0, kv['stamps'], exp, kv['opens']), base))
                 break
+    if cfg.get('extra') == 'fsclock' and (not replay or cases[0][4] == 'fsclock_probe'):
+        # stamps and verdicts of the file checkers are functions of the file, not of the wall clock: the same path states (with
+        # modification times in the past and in the future) probed twice, more than a second apart, give the same lines
+        exe_fs, pout = C.build_harness('fs_probe')
+        fcases = ["F 10 0 100 | F 10 0 100", "F 10 0 3000000000 | F 10 0 3000000000", "F 0 0 3000000000 | F 0 0 3000000001",
+                  "D 3000000000 1 a | D 3000000000 1 a", "F 9000 1 3000000000 | A", "A | F 10 0 3000000000"]
+        f = os.path.join(work if os.path.isdir(work) else C.CACHE, 'fsclock.txt')
+        os.makedirs(os.path.dirname(f), exist_ok=True)
+        open(f, 'w').write('\n'.join(fcases) + '\n')
+        base = len(cases) if not replay else 0
+        if not replay: cases.append((None, None, {}, ['fsclock'], 'fsclock_probe'))
+        if exe_fs:
+            rc1, o1, _ = C.sh([exe_fs, f, '--stamps'], timeout=600)
+            time.sleep(1.3)
+            rc2, o2, _ = C.sh([exe_fs, f, '--stamps'], timeout=600)
+            l1 = [l for l in o1.split('\n') if l and not l.startswith('w ') and not l.startswith('w2 ')]    # the write route stamps a file written NOW
+            l2 = [l for l in o2.split('\n') if l and not l.startswith('w ') and not l.startswith('w2 ')]
+            if rc1 != 0 or rc2 != 0 or not l1:
+                findings.append(('crash', 'the file-clock probe crashed', base))
+            elif l1 != l2:
+                d = next((a, b) for a, b in zip(l1, l2) if a != b) if len(l1) == len(l2) else (len(l1), len(l2))
+                findings.append(('clock-dependent', 'the same path states probed twice, 1.3 s apart, give different stamps / verdicts: %r vs %r' % d, base))
+        else:
+            findings.append(('crash', 'fs_probe did not build', base))
     if cfg.get('extra') == 'wabort' and (not replay or cases[0][4] == 'wabort_probe'):
         # opening a resource for writing may itself modify it (a file is created / truncated): a rejected write through the
         # context must be rejected before Resource::write is called
@@ -405,9 +431,10 @@ ALSO = {'C01': {('C18', 'stale-output'), ('C18', 'stale-resource'),
                 ('C19', 'stale-output'), ('C19', 'stale-resource')},
         # a dependency the store records although the task's latest execution did not create it makes later builds re-execute the
         # task for no reason a from-scratch build would have (the "only if one of ITS dependencies ..." clause)
-        'C02': {('C08', 'recorded-deps-differ')},
+        'C02': {('C08', 'recorded-deps-differ'), ('C08', 'phantom-dependency'), ('C19', 'phantom-dependency')},
         # the bottom-up build must leave every known task up to date also when a checker fails while scheduling
-        'C03': {('C18', 'stale-after-erring-bottom-up'), ('C09', 'dependency-not-checked')},
+        'C03': {('C18', 'stale-after-erring-bottom-up'), ('C09', 'dependency-not-checked'), ('C09', 'requirer-not-checked')},
+        'C04': {('C09', 'requirer-not-checked')},
         # "every dependency it declared can cause it to be re-executed or scheduled": a task left stale by a bottom-up build that was
         # told about the change of a resource the task depends on
         'C08': {('C03', 'stale-after-bottom-up'), ('C18', 'stale-output'), ('C18', 'stale-resource'), ('C09', 'require-record-not-latest'),
